@@ -6,34 +6,44 @@ from tools.vlib import *
 PID = "C14"
 READY = True
 MANIFEST = {
-    "level_text": "PARTIAL. Lean 4 theorems about a model of SessionManager's framing (send: size guard, nonce, 32-bit big-endian length, "
-                  "ChaCha20 call; receive_loop: the three recv_all calls, the length check before the body buffer is allocated, decrypt, "
-                  "dispatch), for every 32-byte key, every 12-byte nonce per frame, every list of payloads and every way the TCP byte stream "
-                  "is cut into pieces on its way to the reader thread: (stream) the handler receives exactly the payloads of at most "
-                  "1048576 bytes, once each, in send order, and the reader is back at a frame boundary; payloads above 1 MiB are refused by "
-                  "send before anything is written and leave no trace (stream_with_refusals); (limit) a header announcing more than 1 MiB "
-                  "ends the session after exactly its 16 bytes with no body buffer allocated, nothing further delivered or read, and on "
-                  "every byte string whatsoever the reader never allocates more than 1 MiB; (wire) the bytes written are nonce, big-endian "
-                  "size, and the RFC 8439 ChaCha20 encryption (counter 0) of the payload under that nonce, which decrypts back to the "
-                  "payload. The reader is modelled both as a resumable machine fed arbitrary pieces and as receive_loop over the whole "
-                  "received string; the two are proved equal on every byte string and both meet an independent specification "
-                  "(Spec/Frames.lean, literal 1 MiB and frame layout). Tied to the code by regenerated constants, guard operators, shift "
-                  "amounts, cipher counter and the position of the length check (Generated/C14.lean), and by a differential run of two "
-                  "real SessionManagers over loopback TCP (real accept/connect/handshake and reader threads) plus a raw TCP peer that "
-                  "injects valid, truncated, oversized and garbage frames in chosen pieces and captures A's wire bytes; the Lean "
-                  "specification judges every delivery log, refusal, session end and captured frame.",
-    "level_note": "Partial because the following are exercised by the differential run but not proved: the kernel delivers the TCP "
-                  "byte stream unaltered and in order; there is exactly one reader thread per session and recv_all sees the bytes in "
-                  "order; two threads calling send() for the same peer concurrently do not interleave their frames (send_all loops over "
-                  "partial writes without a per-session lock: a scheduling matter, see C36; the harness sends from one thread per "
-                  "direction); nonce freshness comes from std::random_device (theorems hold for every nonce; the harness only tests "
-                  "pairwise distinctness of all nonces captured in a run). Trusted: Lean kernel; hand transcription of send / "
-                  "receive_loop into Lean (checked by the differential run; 7 hand-made mutants caught); ChaCha20::apply is taken at "
-                  "its RFC 8439 specification (proved equal by C09; here compared on every captured frame); the harness, its marker-based "
-                  "quiescence (a marker frame sent down the same session) and canonicalisation (payloads above 32 bytes as length + "
-                  "sha256 prefix). Session replacement, teardown, and send() on a missing/stopped session are outside the property.",
-    "technique": "Lean 4 proof (resumable-parser machine = whole-stream parser = independent spec; induction over frames and bytes) + "
-                 "regenerated constants/guards + differential run over real loopback sessions and a raw TCP peer with a Lean monitor",
+    "level_text": "PARTIAL (what is left: kernel TCP, nonce freshness). Lean 4 theorems about a model of SessionManager's framing (send: "
+                  "size guard, nonce, 32-bit big-endian length, ChaCha20 call, frame written in pieces under the per-session send lock; "
+                  "receive_loop: the three recv_all calls, the length check before the body buffer is allocated, decrypt, dispatch), for "
+                  "every 32-byte key, every 12-byte nonce per frame, every list of payloads and every way the TCP byte stream is cut into "
+                  "pieces on its way to the reader thread: (stream) the handler receives exactly the payloads of at most 1048576 bytes, "
+                  "once each, in send order, and the reader is back at a frame boundary; payloads above 1 MiB are refused by send before "
+                  "anything is written and leave no trace (stream_with_refusals); (limit) a header announcing more than 1 MiB ends the "
+                  "session after exactly its 16 bytes with no body buffer allocated, nothing further delivered or read, and on every byte "
+                  "string whatsoever the reader never allocates more than 1 MiB; (wire) the bytes written are nonce, big-endian size, and "
+                  "the RFC 8439 ChaCha20 encryption (counter 0) of the payload under that nonce, which decrypts back to the payload; "
+                  "(concurrent_locked) for every number of sender threads, every list of send() calls per thread, every way the kernel "
+                  "takes each frame in pieces and every schedule of the threads, with the send lock the wire is an interleaving of whole "
+                  "frames, so the receiver delivers every payload of every thread exactly once, byte for byte, and each thread's payloads "
+                  "in that thread's order; (concurrent_unlocked_counterexample) without the lock two 2-piece sends interleave into a "
+                  "stream whose length field announces 16 MiB: session ended, nothing delivered (kernel-evaluated). The reader is modelled "
+                  "both as a resumable machine fed arbitrary pieces and as receive_loop over the whole received string; the two are proved "
+                  "equal on every byte string and both meet an independent specification (Spec/Frames.lean). Tied to the code by "
+                  "regenerated constants, guard operators, shift amounts, cipher counter, the position of the length check and the flag "
+                  "'send() holds session->send_mutex around send_all' (Generated/C14.lean; removing the lock breaks the obligation), and by "
+                  "a differential run of two real SessionManagers over loopback TCP (real accept/connect/handshake and reader threads, "
+                  "several sender threads per session) plus a raw TCP peer that injects valid, truncated, oversized and garbage frames in "
+                  "chosen pieces and captures A's wire bytes; the Lean specification judges every delivery log, refusal, session end, "
+                  "captured frame and concurrent-send outcome (multiset equality + per-thread order).",
+    "level_note": "Defect C14-1 found and repaired (fixes/C14-session-send-lock.patch): send() wrote frames with a loop of ::send calls "
+                  "and no per-session lock although reader, tick and control threads send to the same peer; concurrent frames interleaved "
+                  "and the peer dropped the session (reproduced on loopback, default buffers, 4 threads x 1 MiB: 6/6). The model follows the "
+                  "repaired code. Still partial, exercised by the differential run but not proved: the kernel delivers the TCP byte stream "
+                  "unaltered and in order and takes the bytes of one ::send call contiguously; there is exactly one reader thread per "
+                  "session; std::mutex gives mutual exclusion; nonce freshness comes from std::random_device (theorems hold for every "
+                  "nonce; the harness only tests pairwise distinctness of all nonces captured in a run). Trusted: Lean kernel; hand "
+                  "transcription of send / receive_loop / the lock into Lean (checked by the differential run; 8 hand-made mutants "
+                  "caught, among them the removed lock); ChaCha20::apply is taken at its RFC 8439 specification (proved equal by C09; "
+                  "here compared on every captured frame); the harness, its marker-based quiescence (a marker frame sent down the same "
+                  "session) and canonicalisation (payloads above 32 bytes as length + sha256 prefix). Session replacement, teardown, "
+                  "send() on a missing/stopped session and the unlocked read of Session::key (C36) are outside the property.",
+    "technique": "Lean 4 proof (resumable-parser machine = whole-stream parser = independent spec; lock invariant and linearisation of "
+                 "multi-threaded piecewise writers; induction over frames, bytes and schedules) + regenerated constants/guards/lock flag + "
+                 "differential run over real loopback sessions, concurrent senders and a raw TCP peer with a Lean monitor",
 }
 
 SM_CPP = "src/network/SessionManager.cpp"
